@@ -4,7 +4,8 @@
    Per node (legal position, consistent key, reached by a legal move or a pass while not in check, ply limit) and per verdict,
    the statement is decided on every run by the extracted monitor mon_nodes on the real engine's hook trace. *)
 From Coq Require Import NArith ZArith List Permutation.
-From JV Require Import Gen.Consts Model.Chess Model.Eval Model.TT Model.Search Model.SearchChess Model.Monitors Proofs.SearchBalance Proofs.SortProofs Proofs.SearchNodes Proofs.ZobristProofs Proofs.GenProofs Proofs.GenOk Proofs.KingsProofs Proofs.MakeGen.
+Import ListNotations.
+From JV Require Import Gen.Consts Model.Chess Model.Eval Model.TT Model.Search Model.SearchChess Model.Monitors Model.Abs Proofs.SearchBalance Proofs.SortProofs Proofs.SearchNodes Proofs.ZobristProofs Proofs.GenProofs Proofs.GenOk Proofs.KingsProofs Proofs.MakeGen Proofs.RangeProofs Proofs.NkProofs Proofs.LegalInv Proofs.LegalInvB.
 
 Theorem C06_fuel : forall pollp stop_at bypass g depth t rt ri,
   chess_search pollp stop_at bypass g depth t rt ri <> SFuel.
@@ -49,6 +50,32 @@ Proof. exact reach_good. Qed.
 Theorem C06_reachable_positions_one_king_each : forall g0 g, cons g0 -> kings g0 -> reach_nk g0 g -> kings g.
 Proof. exact reach_kings. Qed.
 
+(* THE per-node invariant, with no side condition: from a root that satisfies the executable invariant legal_inv_b (consistent sets,
+   one king each, men on board squares, the side not to move not in check, stored key = recomputed key), EVERY position examined
+   by negamax or quiescence -- whatever the depth, window, table content, history, poll oracle and stop schedule -- satisfies
+   legal_inv again: consistent redundant sets, exactly one king each, the side that just moved is not in check, key = from-scratch
+   key.  (No generated move captures a king because the side not to move is not in check: attack symmetry, Proofs/AttackSym.v.) *)
+Definition node_inv (ev : event game move) : Prop :=
+  match ev with ENode _ g _ _ _ _ _ _ _ _ => legal_inv g | _ => True end.
+Theorem C06_every_examined_position_is_consistent : forall pollp stop_at bypass fuel g0 d a b (e : c_env),
+  legal_inv_b g0 = true -> trace e = [] ->
+  match chess_negamax pollp stop_at bypass fuel g0 d a b e with
+  | Val _ e' => Forall node_inv (trace e')
+  | OutOfFuel => True
+  end.
+Proof.
+  intros pollp stop_at bypass fuel g0 d a b e LB TE.
+  pose proof (legal_inv_b_sound g0 LB) as L0.
+  pose proof (C06_nodes_reachable pollp stop_at bypass fuel g0 g0 d a b e (reach_root _ _ _ _ _ _ _)) as N.
+  assert (T0 : TraceOk game move generate_moves c_make null_move (fun g => is_in_check g (white g)) g0 e) by (unfold TraceOk; rewrite TE; constructor).
+  specialize (N T0). destruct (chess_negamax pollp stop_at bypass fuel g0 d a b e) as [s e'|]; [|exact I].
+  unfold TraceOk in N. eapply Forall_impl; [|exact N]. intros ev. destruct ev; cbn; auto. intros R. exact (reach_legal g0 _ L0 R).
+Qed.
+Theorem C06_invariant_step : forall g all m g', legal_inv g -> In m (generate_moves g all) -> c_make g m = Some g' -> legal_inv g'.
+Proof. exact legal_step. Qed.
+Theorem C06_invariant_pass : forall g, legal_inv g -> is_in_check g (white g) = false -> legal_inv (null_move g).
+Proof. exact legal_pass. Qed.
+
 (* the per-node statement, as the monitor decides it for one trace (visible, not assumed) *)
 Definition C06_full : Prop := forall pollp stop_at bypass g depth t hist,
   Abs.wf g = true -> keyok_b g = true ->
@@ -62,4 +89,7 @@ Print Assumptions C06_sort.
 Print Assumptions C06_nodes_reachable.
 Print Assumptions C06_verdict_no_legal_move.
 Print Assumptions C06_reachable_positions_consistent.
+Print Assumptions C06_every_examined_position_is_consistent.
+Print Assumptions C06_invariant_step.
+Print Assumptions C06_invariant_pass.
 Print Assumptions C06_reachable_positions_one_king_each.
